@@ -66,6 +66,13 @@ fn corpus(seed: u64, budget: usize) -> Vec<String> {
     for &c in &ctx { for &a in &nb { v.push([a, c].iter().collect()); v.push([c, a].iter().collect()); for &b in &nb { v.push([a, c, b].iter().collect()); } } }
     for &c in &ctx { for &a in &nb { for &t in &['\u{64e}', '\u{5bf}', '\u{93c}'] { for &b in &nb { v.push([a, t, c, t, b].iter().collect()); v.push([a, '\u{94d}', t, c, b].iter().collect()); } } } }
     for &c in &ctx { for &d in &ctx { for &a in &['l', '\u{94d}', '\u{3b1}'] { v.push([a, c, a, d, a].iter().collect()); v.push([a, c, a, d].iter().collect()); } } }
+    // two mapped characters separated by runs of unmapped ones (width-mappable, cased, non-ASCII spaces), 1- to 4-byte runs
+    for &m1 in &['\u{ff01}', '\u{ff76}', 'A', '\u{a0}', '\u{3000}'] { for &m2 in &['\u{ff0e}', '\u{ff9e}', 'B', '\u{2003}', '\u{130}'] {
+        for run in ["abc", "\u{e9}", "\u{4e2d}\u{672c}", "x\u{1f600}y", ""] { for tail in ["", "de", "\u{e9}"] {
+            v.push(format!("{}{}{}{}{}", run, m1, run, m2, tail)); v.push(format!("{}{}{}{}{}", m1, run, m2, run, tail)); } } } }
+    // long runs of combining marks on one base (more than 30 non-starters: stream-safe / buffer limits of normalisers)
+    for base in ['q', 'a', '\u{5d0}'] { for mark in ['\u{307}', '\u{300}', '\u{5b0}'] { for n in [29usize, 30, 31, 32, 40] {
+        let mut t = String::new(); t.push(base); for _ in 0..n { t.push(mark); } v.push(t); } } }
     while v.len() < budget {
         let n = 3 + rng.below(6);
         let s: String = (0..n).map(|_| ALPHABET[rng.below(ALPHABET.len())]).collect();
@@ -650,14 +657,14 @@ fn exhaustive(name: &str) -> i32 {
         // C11 / C04: width mapping of EVERY scalar value, alone and after a multi-byte / an already mapped character, through the public rule
         "width_cp" => { let m = UsernameCasePreserved::new(); let mut n = 0u64;
             for cp in 0..=0x10ffffu32 { if let Some(c) = char::from_u32(cp) { n += 1;
-                for probe in [format!("{}", c), format!("\u{e9}{}b", c), format!("\u{ff21}{}", c)] {
+                for probe in [format!("{}", c), format!("\u{e9}{}b", c), format!("\u{ff21}{}", c), format!("a\u{ff01}bc{}d", c)] {
                     let got = own(m.width_mapping_rule(probe.as_str())); let exp: R = Ok(ref_width(&probe));
                     if got != exp { println!("{{\"found\":true,\"input\":{},\"detail\":{}}}", json_str(&probe), json_str(&format!("width_mapping_rule({}): got {}, expected {}", esc(&probe), show(&got), show(&exp)))); return 1; } } } }
             println!("{{\"found\":false,\"evaluated\":{}}}", n); 0 }
         // C10 / C04: lowercase mapping of EVERY scalar value, alone, after an unmapped multi-byte character and after a mapped one
         "lower_cp" => { let m = UsernameCaseMapped::new(); let mut n = 0u64;
             for cp in 0..=0x10ffffu32 { if let Some(c) = char::from_u32(cp) { n += 1;
-                for probe in [format!("{}", c), format!("\u{e9}{}b", c), format!("A{}", c)] {
+                for probe in [format!("{}", c), format!("\u{e9}{}b", c), format!("A{}", c), format!("aAbc{}d", c)] {
                     let got = own(m.case_mapping_rule(probe.as_str())); let exp: R = Ok(ref_lower(&probe));
                     if got != exp { println!("{{\"found\":true,\"input\":{},\"detail\":{}}}", json_str(&probe), json_str(&format!("case_mapping_rule({}): got {}, expected {}", esc(&probe), show(&got), show(&exp)))); return 1; } } } }
             println!("{{\"found\":false,\"evaluated\":{}}}", n); 0 }
